@@ -83,7 +83,7 @@ package plugins
 //@             && (!old(lrw.ResponseWriter.committed) ==> lrw.ResponseWriter.committed && lrw.ResponseWriter.status == lrw.statusCode)
 //@   ensures already: old(lrw.wroteHeader) ==> lrw.statusCode == old(lrw.statusCode) && lrw.ResponseWriter.status == old(lrw.ResponseWriter.status) && lrw.ResponseWriter.committed == old(lrw.ResponseWriter.committed)
 //@   ensures body_kept: lrw.ResponseWriter.bodyLen == old(lrw.ResponseWriter.bodyLen)
-//@   modifies lrw.wroteHeader, lrw.statusCode, http.ResponseWriter.committed, http.ResponseWriter.status
+//@   modifies lrw.wroteHeader, lrw.statusCode, http.ResponseWriter.committed, http.ResponseWriter.status, http.ResponseWriter.ceAtCommit, http.ResponseWriter.clAtCommit
 
 //@ func (*limitedResponseWriter).checkLimit
 //@   props C14
@@ -95,7 +95,7 @@ package plugins
 //@   ensures excess: old(lrw.written) + len(b) > lrw.limit ==> result != nil && lrw.limitReached
 //@   ensures excess_before_anything_sent_is_413: old(lrw.written) + len(b) > lrw.limit && !old(lrw.wroteHeader) && !lrw.ResponseWriter.hijacked ==> lrw.ResponseWriter.status == 413
 //@   ensures nothing_written: lrw.written == old(lrw.written) && lrw.ResponseWriter.bodyLen == old(lrw.ResponseWriter.bodyLen)
-//@   modifies lrw.limitReached, lrw.wroteHeader, lrw.statusCode, http.ResponseWriter.committed, http.ResponseWriter.status
+//@   modifies lrw.limitReached, lrw.wroteHeader, lrw.statusCode, http.ResponseWriter.committed, http.ResponseWriter.status, http.ResponseWriter.ceAtCommit, http.ResponseWriter.clAtCommit
 
 //@ func (*limitedResponseWriter).Write
 //@   props C14
@@ -103,7 +103,7 @@ package plugins
 //@   ensures inv: inv(lrw)
 //@   ensures never_beyond_limit: lrw.ResponseWriter.bodyLen - lrw.base <= lrw.limit
 //@   ensures refused_when_excess: old(lrw.limitReached) || old(lrw.written) + len(b) > lrw.limit ==> result0 == 0 && result1 != nil && lrw.ResponseWriter.bodyLen == old(lrw.ResponseWriter.bodyLen)
-//@   modifies lrw.written, lrw.limitReached, lrw.wroteHeader, lrw.statusCode, http.ResponseWriter.committed, http.ResponseWriter.status, http.ResponseWriter.bodyLen
+//@   modifies lrw.written, lrw.limitReached, lrw.wroteHeader, lrw.statusCode, http.ResponseWriter.committed, http.ResponseWriter.status, http.ResponseWriter.ceAtCommit, http.ResponseWriter.clAtCommit, http.ResponseWriter.bodyLen
 
 //@ func (*limitedResponseWriter).WriteHeader
 //@   props C14
@@ -118,7 +118,7 @@ package plugins
 //@   ensures inv: inv(lrw)
 //@   ensures flush_sends_recorded_status: !old(lrw.limitReached) && !old(lrw.wroteHeader) && !old(lrw.ResponseWriter.committed)
 //@             ==> lrw.ResponseWriter.status == (old(lrw.statusCode) == 0 ? 200 : old(lrw.statusCode))
-//@   modifies lrw.wroteHeader, lrw.statusCode, http.ResponseWriter.committed, http.ResponseWriter.status, http.ResponseWriter.flushes
+//@   modifies lrw.wroteHeader, lrw.statusCode, http.ResponseWriter.committed, http.ResponseWriter.status, http.ResponseWriter.ceAtCommit, http.ResponseWriter.clAtCommit, http.ResponseWriter.flushes
 
 //@ func (*limitedResponseWriter).Hijack
 //@   props C14 C20
@@ -134,7 +134,7 @@ package plugins
 //@   ensures inv: inv(lrw)
 //@   ensures bodiless_status_is_sent: !old(lrw.limitReached) && old(lrw.statusCode) != 0 && !lrw.ResponseWriter.hijacked ==> lrw.ResponseWriter.committed && lrw.ResponseWriter.status == old(lrw.statusCode)
 //@   ensures body_kept: lrw.ResponseWriter.bodyLen == old(lrw.ResponseWriter.bodyLen)
-//@   modifies lrw.wroteHeader, lrw.statusCode, http.ResponseWriter.committed, http.ResponseWriter.status
+//@   modifies lrw.wroteHeader, lrw.statusCode, http.ResponseWriter.committed, http.ResponseWriter.status, http.ResponseWriter.ceAtCommit, http.ResponseWriter.clAtCommit
 
 // The handler installed by the plugin.
 //@ func newSizeLimitMiddleware$1$1
